@@ -107,7 +107,7 @@ def gen_case(r, tier, force=None):
     last = 0 if r.chance(4, 5) else r.range(0, 6)
     hist = r.below(10)
     if hist <= 6:
-        e0 = r.range(0, start) if r.chance(3, 4) else r.range(0, start + 1)
+        e0 = r.range(0, start) if r.chance(3, 4) else r.range(-2, start + 1)
         calls = [{"e": e0 + i, "id": 0} for i in range(ncalls)]
     elif hist == 7:          # consecutive, with calls for another identifier in between
         e0 = r.range(0, start)
@@ -146,8 +146,11 @@ def gen_case(r, tier, force=None):
     else:
         gs = sorted(set(r.range(0, 4) for _ in range(r.range(2, 4))))
         distr = [{"g": g, "w": str(r.choice([1, 2, 3, 5, 7, r.range(1, 1000)]))} for g in gs]
-    return {"props": [str(x) for x in props], "factor": str(factor), "period": period, "start": start, "recv": recv,
+    case = {"props": [str(x) for x in props], "factor": str(factor), "period": period, "start": start, "recv": recv,
             "prov": str(prov), "last": last, "vest": str(vest), "na": na, "distr": distr, "calls": calls}
+    if r.chance(1, 10):      # the pool-incentives account already holds something (the hook distributes its whole balance)
+        case["poolpre"] = str(r.choice([1, 7, r.range(1, 10 ** 6), r.range(1, 10 ** 20)]))
+    return case
 
 
 # the witness of Properties/C18.v supply_exact_refuted (finding F3), replayed on the implementation on every run
@@ -345,10 +348,11 @@ def oracle(c, init, steps):
                 % (tag, moved, p_amt, comm, to_cp_from_dev))
         if d("cpool") < comm + to_cp_from_dev or d("inc") < 0 or cur.pool < 0:
             bad("split", "%s: community pool got %d < remainder %d + %d" % (tag, d("cpool"), comm, to_cp_from_dev))
-        if single_sink and prev.pool == 0:
+        if single_sink and prev.pool >= 0:
             to_gauge = bool(c["distr"]) and c["distr"][0]["g"] != 0
-            exp_inc = p_amt if to_gauge else 0
-            exp_cp = comm + to_cp_from_dev + (0 if to_gauge else p_amt)
+            fwd = p_amt + prev.pool          # the module forwards everything it holds
+            exp_inc = fwd if to_gauge else 0
+            exp_cp = comm + to_cp_from_dev + (0 if to_gauge else fwd)
             if d("inc") != exp_inc or d("cpool") != exp_cp or cur.pool != 0:
                 bad("split", "%s: pool incentives share %d: incentives module +%d (expected %d), community pool +%d (expected %d), left in the module %d"
                     % (tag, p_amt, d("inc"), exp_inc, d("cpool"), exp_cp, cur.pool))
